@@ -112,6 +112,23 @@ func runC08(r *vf.Run) {
 					gb = gb[:len(gb)-1]
 				}
 			}
+			if qi%7 == 3 && len(gb) > 0 {
+				// (round 8) a group-by entry spelled in another case than the column: unknown to the library; whatever a
+				// lenient lookup makes of it, the caller's list stays as the caller wrote it
+				k := rng.Intn(len(gb))
+				if v := swapCase(gb[k]); v != gb[k] && !A.Cols[v] && !B.Cols[v] {
+					gb = append([]string{}, gb...)
+					gb[k] = v
+					r.Count("queries_with_a_column_spelled_in_another_case", 1)
+				}
+			}
+			if qi%7 == 5 {
+				l := gen.Leaf(rng, A, A.ColNames())
+				if v := swapCase(l.Col); v != l.Col && !A.Cols[v] && !B.Cols[v] {
+					e = oracle.And(e, oracle.Eq(v, l.Val))
+					r.Count("queries_with_a_column_spelled_in_another_case", 1)
+				}
+			}
 			e = e.Clone() // no shared nodes: the in-place edits below must hit exactly one place in both trees
 			// the Query value under test, with spare capacity in the group-by slice
 			gbv := make([]string, len(gb), len(gb)+4)
@@ -369,4 +386,18 @@ func gbWork(ds *gen.Dataset, gb []string) int {
 		}
 	}
 	return work
+}
+
+// swapCase flips the case of every ASCII letter.
+func swapCase(s string) string {
+	b := []byte(s)
+	for i, c := range b {
+		switch {
+		case c >= 'a' && c <= 'z':
+			b[i] = c - 32
+		case c >= 'A' && c <= 'Z':
+			b[i] = c + 32
+		}
+	}
+	return string(b)
 }
